@@ -579,6 +579,86 @@ fn late_commitment<S: ShortGroupSignatureScheme + 'static>(em: &mut Emitter, rng
     }
 }
 
+/// Statement identifiers and claim indices that collide when written next to each other without a separator:
+/// ("cred", 11) and ("cred1", 1), ("k", 12) and ("k1", 2). Two credentials with 13 claims each; the honest holder must be
+/// accepted for a commitment + range on the first pair member, and a holder that runs the sub-protocol on the *other*
+/// member (another credential, another value; steered with the verifier's transcript) must be rejected.
+fn aliasing_identifiers<S: ShortGroupSignatureScheme + 'static>(em: &mut Emitter, rng: &mut Rng, suite: &str) {
+    use credx::claim::*;
+    use credx::credential::{ClaimSchema, CredentialSchema};
+    use credx::issuer::Issuer;
+    let n = 13usize;
+    let mut cs = vec![ClaimSchema { claim_type: ClaimType::Revocation, label: "c0".into(), print_friendly: false, validators: vec![] }];
+    for i in 1..n {
+        cs.push(ClaimSchema { claim_type: ClaimType::Number, label: format!("c{}", i), print_friendly: false, validators: vec![] });
+    }
+    let schema = match CredentialSchema::new(Some("alias"), None, &[], &cs) {
+        Ok(s) => s,
+        Err(_) => return,
+    };
+    let mut bundles = vec![];
+    for c in 0..2usize {
+        let (_p, mut issuer) = Issuer::<S>::new(&schema);
+        let mut claims: Vec<ClaimData> = vec![RevocationClaim::from(format!("alias-{}-{}", c, rng.below(1 << 20))).into()];
+        for i in 1..n {
+            claims.push(NumberClaim::from((100 * (c + 1) + i) as isize).into());
+        }
+        match call(|| issuer.sign_credential(&claims)) {
+            Out::Ok(b) => bundles.push(b),
+            _ => return,
+        }
+    }
+    // (first id, second id, claim of the first, claim of the second) with `first ++ claim₁ == second ++ claim₂`
+    let pairs = [("cred", "cred1", 11usize, 1usize), ("k", "k1", 12, 2), ("a1", "a", 1, 11), ("x2", "x21", 10, 0)];
+    for (ida, idb, ca, cb) in pairs {
+        if cb == 0 {
+            continue;
+        }
+        for order in 0..2 {
+            let sig = |id: &str, b: usize| -> Statements<S> { SignatureStatement { disclosed: Default::default(), id: id.to_string(), issuer: bundles[b].issuer.clone() }.into() };
+            let va = 100 + ca as isize; // value of claim `ca` in credential 0
+            let vb = 200 + cb as isize; // value of claim `cb` in credential 1
+            let mk = |refid: &str, claim: usize, lo: isize, hi: isize, rng: &mut Rng| -> PresentationSchema<S> {
+                let com = CommitmentStatement { id: "com0".into(), reference_id: refid.to_string(), message_generator: g1_from_dl(rng.sub(1).scalar()), blinder_generator: g1_from_dl(rng.sub(2).scalar()), claim };
+                let rg = RangeStatement { id: "rng0".into(), reference_id: "com0".into(), signature_id: refid.to_string(), claim, lower: Some(lo), upper: Some(hi) };
+                let mut stmts: Vec<Statements<S>> = if order == 0 { vec![sig(ida, 0), sig(idb, 1)] } else { vec![sig(idb, 1), sig(ida, 0)] };
+                stmts.push(com.into());
+                stmts.push(rg.into());
+                PresentationSchema::new_with_id(&stmts, "alias")
+            };
+            let mut creds: IndexMap<String, credx::presentation::PresentationCredential<S>> = IndexMap::new();
+            creds.insert(ida.to_string(), bundles[0].credential.clone().into());
+            creds.insert(idb.to_string(), bundles[1].credential.clone().into());
+            let nonce = rng.bytes(16);
+            // honest: the range holds for the referenced claim
+            let honest = mk(ida, ca, va - 5, va + 5, rng);
+            em.oracle_case(&format!("{} aliasing honest {} {} order {}", suite, ida, idb, order));
+            em.count("aliasing:honest");
+            let ok = match call(|| Presentation::create(&creds, &honest, &nonce)) {
+                Out::Ok(p) => call(|| p.verify(&honest, &nonce)).is_ok(),
+                _ => false,
+            };
+            if !ok {
+                em.violation("c05:aliasing-honest-rejected", format!("{}: honest presentation with statement ids '{}' / '{}' and a commitment + range on claim {} of '{}' is not created / accepted", suite, ida, idb, ca, ida), json!({"suite": suite, "ids": [ida, idb], "claim": ca, "order": order}));
+            }
+            // deviating: the verifier asks for a range that only the *other* credential's claim satisfies; the holder runs
+            // commitment and range on that other claim and is steered with the verifier's transcript
+            let verifier = mk(ida, ca, vb - 5, vb + 5, rng);
+            let prover = mk(idb, cb, vb - 5, vb + 5, rng);
+            em.oracle_case(&format!("{} aliasing retarget {} {} order {}", suite, ida, idb, order));
+            match crate::adv::steered_create(&creds, &prover, &verifier, &nonce, None) {
+                Out::Ok(p) => {
+                    em.count("aliasing:steered");
+                    if call(|| p.verify(&verifier, &nonce)).is_ok() {
+                        em.violation("c05:aliasing-retarget-accepted", format!("{}: commitment + range statement on claim {} of '{}' (value {}) accepted for a proof made on claim {} of '{}' (value {})", suite, ca, ida, va, cb, idb, vb), json!({"suite": suite, "ids": [ida, idb], "claims": [ca, cb], "order": order, "presentation": serde_json::to_value(&p).unwrap_or_default()}));
+                    }
+                }
+                o => em.count(&format!("aliasing:steered-{}", o.class())),
+            }
+        }
+    }
+}
+
 pub fn gen_c05(em: &mut Emitter, rng: &mut Rng) {
     em.rule = "deviating holders owning valid credentials, per statement kind (commitment, range via commitment, verifiable encryption, encrypt-and-decrypt, \
                revocation, membership): the real prover runs the predicate sub-protocol on another hidden claim of the same credential / on the other \
@@ -605,6 +685,12 @@ pub fn gen_c05(em: &mut Emitter, rng: &mut Rng) {
     }
     if em.mine(base + 5) {
         surplus_response_forgery::<Ps>(em, &mut rng.sub(8006), "ps");
+    }
+    if em.mine(base + 14) {
+        aliasing_identifiers::<Bbs>(em, &mut rng.sub(8015), "bbs");
+    }
+    if em.mine(base + 15) {
+        aliasing_identifiers::<Ps>(em, &mut rng.sub(8016), "ps");
     }
     if em.mine(base + 12) {
         late_commitment::<Bbs>(em, &mut rng.sub(8013), "bbs");
